@@ -106,8 +106,8 @@ def derived(body, seeds, calls="all", fields=True, stop_calls=()):
         for pl, rv in assigns:
             if pl["l"] in t:
                 continue
-            if "*" in pl["p"]:
-                continue        # a store through a pointer does not make the pointer itself derived
+            if "*" in pl["p"] and not body.local_ty(pl["l"]).startswith("alloc::boxed::Box<"):
+                continue        # a store through a reference does not make the reference itself derived (a Box owns its storage)
             if rv_locals(rv) & t:
                 t.add(pl["l"])
                 changed = True
